@@ -323,6 +323,8 @@ def _bind_calls(key: str, rng, C, n: int):
                 for oem in (None, "01", "67", "6C"):
                     exp = {"phase": "offer", "bindings": ("bind_offer", codes, "34:021943", oem)}
                     yield (lambda codes=codes, dst=dst, oem=oem: C.put_bind(" I", "34:021943", codes, dst, oem_code=oem)), exp, f"offer {codes} {dst} {oem}"
+                    if oem is None:  # the keyword left out altogether (how the binding code calls it)
+                        yield (lambda codes=codes, dst=dst: C.put_bind(" I", "34:021943", codes, dst)), exp, f"offer {codes} {dst} (no oem kw)"
             for idx in (None, "00", "01", "21"):
                 exp = {"phase": "confirm", "bindings": ("bind_confirm", codes, "34:021943", idx)}
                 yield (lambda codes=codes, idx=idx: C.put_bind(" I", "34:021943", codes, "01:145038", idx=idx)), exp, f"confirm {codes} idx={idx}"
